@@ -30,7 +30,7 @@ Ev == Log[l]
 Step(op) == l <= N /\ Ev.op = op /\ l' = l + 1
 
 RevOf(r) == [num |-> r.num, rout |-> r.rout, hout |-> r.hout, missed |-> r.missed, coll |-> r.coll,
-             size |-> r.size, cap |-> r.cap, commit |-> r.roots, ph |-> r.ph, eh |-> r.eh, rk |-> r.rk, hk |-> r.hk]
+             size |-> r.size, cap |-> r.cap, commit |-> r.roots, ph |-> r.ph, eh |-> r.eh, dur |-> r.dur, rk |-> r.rk, hk |-> r.hk]
 
 ToSet(seq) == {seq[i] : i \in DOMAIN seq}
 
@@ -47,7 +47,9 @@ PostOK ==
          /\ rev' = RevOf(Ev.st)
          /\ acct' = Ev.st.acct
          /\ pool' = Ev.st.pool
-         /\ renewed' = Ev.st.renewed
+         /\ att' = Ev.st.att
+         /\ ~Ev.st.renewed
+         /\ Ev.st.others      \* every contract this one was renewed from is still exactly as it was frozen
          /\ lock' = 0
     ELSE TRUE
 
@@ -57,7 +59,7 @@ TraceInit ==
     /\ l = 1
     /\ holder = 0
     /\ rev = [num |-> 0, rout |-> 0, hout |-> 0, missed |-> 0, coll |-> 0, size |-> 0, cap |-> 0, commit |-> <<>>,
-              ph |-> 0, eh |-> 0, rk |-> "rk", hk |-> "hk"]
+              ph |-> 0, eh |-> 0, dur |-> 1, rk |-> "rk", hk |-> "hk"]
     /\ sigs = [r |-> rev, h |-> rev]
     /\ roots = <<>>
     /\ stored = {}
@@ -66,7 +68,7 @@ TraceInit ==
     /\ pex = {}
     /\ att = [a \in Accounts |-> <<>>]
     /\ lock = 0
-    /\ renewed = FALSE
+    /\ olds = <<>>
     /\ sess = [s \in Sessions |-> IdleS]
     /\ act = [op |-> "Init"]
     /\ reply = NoneR
@@ -74,8 +76,8 @@ TraceInit ==
 
 TReset ==
     /\ Step("Reset")
-    /\ Ev.st.match /\ Ev.st.sigs /\ Ev.st.exact
-    /\ Ev.up = [free |-> PFree, stor |-> PStor, ingr |-> PIngr, coll |-> PColl, roots |-> PRoots, egr4k |-> PEgr,
+    /\ Ev.st.match /\ Ev.st.sigs /\ Ev.st.exact /\ Ev.st.others
+    /\ Ev.up = [free |-> PFree, storb |-> PStorB, ingr |-> PIngr, collb |-> PCollB, roots |-> PRoots, egr4k |-> PEgr,
                 wstor |-> PWstor, ingr4k |-> PIngr4k, verify |-> PVerify]
     /\ rev' = RevOf(Ev.st)
     /\ sigs' = [r |-> rev', h |-> rev']
@@ -87,7 +89,7 @@ TReset ==
     /\ att' = Ev.att
     /\ lock' = 0
     /\ holder' = 0
-    /\ renewed' = Ev.st.renewed
+    /\ olds' = <<>>
     /\ sess' = [s \in Sessions |-> IdleS]
     /\ act' = [op |-> "Reset"]
     /\ reply' = NoneR
@@ -115,8 +117,8 @@ TBeginRead    == Step("BeginRead")    /\ RPC(BeginRead(Ev.s, Ev.a, Ev.sec, Ev.un
 TBeginVerify  == Step("BeginVerify")  /\ RPC(BeginVerify(Ev.s, Ev.a, Ev.sec, Ev.tf, Ev.pf))
 TBeginWrite   == Step("BeginWrite")   /\ RPC(BeginWrite(Ev.s, Ev.a, Ev.sec, Ev.units, Ev.tf, Ev.pf))
 TBeginBalance == Step("BeginBalance") /\ RPC(BeginBalance(Ev.s, Ev.a))
-TBeginRenew   == Step("BeginRenew")   /\ RPC(BeginRenew(Ev.s, Ev.kind, Ev.pf, Ev.cf, Ev.rf))
-TRound2Renew  == Step("Round2Renew")  /\ (RPC(Round2Renew(Ev.s, Ev.sf)) \/ RPC(Ignored(Ev.s)))
+TBeginRenew   == Step("BeginRenew")   /\ RPC(BeginRenew(Ev.s, Ev.kind, Ev.pf, Ev.cf, Ev.rf, Ev.na, Ev.nc))
+TRound2Renew  == Step("Round2Renew")  /\ (RPC(Round2Renew(Ev.s, Ev.sf, Ev.x)) \/ RPC(Ignored(Ev.s)))
 
 (* call level (concurrent renters).  The recorder sees, in one total order:
      Lock(ok, epoch)   LockV2Contract granted (ok) or refused
@@ -158,7 +160,7 @@ TCommit ==
     /\ acct' = Ev.st.acct
     /\ pool' = Ev.st.pool
     /\ TotalBal' - TotalBal = (IF Ev.kind \in {"CA", "CP"} THEN Ev.cost ELSE 0)
-    /\ UNCHANGED <<stored, pex, att, renewed, lock, holder>> /\ Quiet
+    /\ UNCHANGED <<stored, pex, att, olds, lock, holder>> /\ Quiet
 
 TraceNext ==
     \/ TReset \/ TDeliver \/ TFinish \/ TAbort \/ TTruncated
